@@ -62,7 +62,7 @@ def _explore_chunk(obl, prefix, model, budget_paths, budget_s, sample_every):
     """DFS below (prefix, model) for at most budget paths; returns stats and leftover work"""
     stack = [(prefix, model)]
     st = dict(paths=0, ok=0, aborted=0, errors=[], labels={}, violations={}, nviol=0, samples=[],
-              maxdepth=0, decisions=0)
+              maxdepth=0, decisions=0, nontrivial=0)
     t0 = time.time()
     sol = core.solver()
     sol.sample_every = 997 if budget_paths > 50 else 53
@@ -122,6 +122,8 @@ def _explore_chunk(obl, prefix, model, budget_paths, budget_s, sample_every):
                               res['exc'] + '\n' + res.get('tb', ''))
             continue
         st['ok'] += 1
+        if getattr(c, 'nasserts', 0) > 0 and len(c.trail) > 0:
+            st['nontrivial'] += 1         # reached a property assertion AND stands for a class of inputs (at least one solver-decided branch)
         for l in c.labels:
             st['labels'][l] = st['labels'].get(l, 0) + 1
         if sample_every and (st['ok'] % sample_every == 1 or sample_every == 1) and not c.violations:
@@ -228,8 +230,8 @@ def explore_all(obls, nproc=NPROC, deadline=None, log=None, sample_target=60):
             if 'fatal' in st and st.get('fatal'):
                 a['fatal'] = st['fatal']
                 continue
-            for k in ('paths', 'ok', 'aborted', 'nviol', 'decisions'):
-                a[k] += st[k]
+            for k in ('paths', 'ok', 'aborted', 'nviol', 'decisions', 'nontrivial'):
+                a[k] = a.get(k, 0) + st.get(k, 0)
             a['maxdepth'] = max(a['maxdepth'], st['maxdepth'])
             a['errors'].extend(st['errors'][:max(0, 20 - len(a['errors']))])
             a['nerrors'] = a.get('nerrors', 0) + len(st['errors'])
@@ -446,7 +448,7 @@ def run_property(modname, tier, only=None, log=print):
                     val_fail.append((o.name, s, out))
         for s in a['samples'][:2]:
             samples_out.append(dict(obligation=o.name, inputs=s['inputs'], labels=s['labels']))
-        ev_obls.append(dict(name=o.name, bounds=o.bounds, outside=o.outside, paths=a['paths'], completed=a['ok'], assumed_away=a['aborted'],
+        ev_obls.append(dict(name=o.name, bounds=o.bounds, outside=o.outside, paths=a['paths'], completed=a['ok'], nontrivial=a.get('nontrivial', 0), assumed_away=a['aborted'],
                             decisions=a['decisions'], max_depth=a['maxdepth'], violating_paths=a['nviol'],
                             solver_queries=a['solver'][0], sat=a['solver'][1], unsat=a['solver'][2], unknown=a['solver'][3],
                             solver_s=round(a['solver'][4], 2), cpu_s=round(a['cpu'], 1), wall_s=round(wall, 1),
@@ -469,9 +471,9 @@ def run_property(modname, tier, only=None, log=print):
     coverage = dict(
         explanation=mod.EXPLANATION,
         evaluations=tot('paths'),
-        distinct_nontrivial=tot('completed'),
+        distinct_nontrivial=tot('nontrivial'),
         rule='one evaluation = one symbolic path (a set of inputs driving the real code the same way); distinct by construction '
-             '(path conditions are pairwise disjoint); non-trivial = ran to the end with a satisfiable path condition and reached the property assertions (not cut by assume)',
+             '(path conditions are pairwise disjoint); non-trivial = ran to the end with a satisfiable path condition (not cut by assume), reached at least one property assertion AND took at least one solver-decided branch, i.e. stands for a class of inputs rather than one constant run (counted per path by the workers)',
         exhaustive=not inconclusive,
         functions_encoded=getattr(mod, 'ENCODED', []),
         source_sha256=files,
